@@ -63,7 +63,11 @@ fn check_pair(va: u32, xa: bool, vb: u32, xb: bool) -> Verdict {
         check_ecube("!&a", &!&a, &mn)?;
         // equality is semantic equality
         let sup: BTreeSet<usize> = ma.vars.union(&mb.vars).copied().collect();
-        let sem_eq = crate::model::cube::assignments(&sup, 0).iter().all(|m| ma.value(*m) == mb.value(*m));
+        // the (capped) enumeration of the joint support, plus every single-variable assignment:
+        // two parities that differ as functions already differ on 0 or on one of those
+        let mut asg = crate::model::cube::assignments(&sup, 0);
+        asg.extend(sup.iter().map(|v| 1u64 << *v));
+        let sem_eq = asg.iter().all(|m| ma.value(*m) == mb.value(*m));
         if (a == b) != sem_eq {
             return fail(format!("a == b is {} (semantic equality)", sem_eq), format!("{}", a == b));
         }
@@ -248,7 +252,11 @@ fn check_soes_chain(n: usize, seq: &[u32]) -> Verdict {
 pub fn replay(case: &Case) -> Result<Verdict, String> {
     let h = |k: &str| -> Result<u32, String> { u32::from_str_radix(case.get(k)?, 16).map_err(|e| e.to_string()) };
     let list = |k: &str| -> Result<Vec<u32>, String> { case.get(k)?.split('.').filter(|s| !s.is_empty()).map(|s| u32::from_str_radix(s, 16).map_err(|e| e.to_string())).collect() };
+    if case.get("kind")? == "tour" {
+        return super::xsize::replay(case, &tour);
+    }
     Ok(match case.get("kind")? {
+        "clonefrom" => check_soes_clone_from(case.usize("n")?, case.usize("m")?, &list("a")?, &list("b")?),
         "pair" => check_pair(h("va")?, case.usize("xa")? != 0, h("vb")?, case.usize("xb")? != 0),
         "consts" => check_consts(case.usize("v")?),
         "all" => check_all(case.usize("n")?),
@@ -277,6 +285,57 @@ fn rec(l: &mut Local, v: Verdict, key: String, sig: &str, case: String, nontrivi
 
 fn join(v: &[u32]) -> String {
     v.iter().map(|x| format!("{:x}", x)).collect::<Vec<_>>().join(".")
+}
+
+/// `d.clone_from(&s)` where d is an existing Soes over m variables with terms b: afterwards d
+/// is s (same size, same terms, same table), and `|` with s works.
+fn check_soes_clone_from(n: usize, m: usize, a: &[u32], b: &[u32]) -> Verdict {
+    let (ta, tb) = (soes_terms(a), soes_terms(b));
+    let fa = soes_model(n, &ta);
+    let r = guarded(|| {
+        let s = Soes::from_cubes(n, ta.iter().map(|(v, x)| mk_ecube(*v, *x)).collect());
+        let mut d = Soes::from_cubes(m, tb.iter().map(|(v, x)| mk_ecube(*v & ((1u32 << m) - 1), *x)).collect());
+        d.clone_from(&s);
+        if d.num_vars() != n {
+            return fail(format!("after clone_from: num_vars = {}", n), format!("{}", d.num_vars()));
+        }
+        if d != s {
+            return fail("after clone_from: equal to the source", format!("{:?} vs {:?}", d, s));
+        }
+        let l = Lut::from(&d);
+        if l.num_vars() != n || l.blocks() != &fa.w[..] {
+            return fail(format!("after clone_from: Lut::from = {}", show_tt(&fa)), format!("n={} [{}]", l.num_vars(), crate::engine::fmt_words(l.blocks())));
+        }
+        let o = &d | &s;
+        let lo = Lut::from(o);
+        if lo.num_vars() != n || lo.blocks() != &fa.w[..] {
+            return fail(format!("after clone_from: d | s denotes {}", show_tt(&fa)), format!("n={} [{}]", lo.num_vars(), crate::engine::fmt_words(lo.blocks())));
+        }
+        Ok(())
+    });
+    match r {
+        Ok(v) => v,
+        Err(p) => fail("clone_from, ==, Lut::from and | return", p),
+    }
+}
+
+/// One tour: the enumeration, a Soes conversion and implies_lut at every ordered pair of sizes.
+pub fn tour(which: &str, k: usize, _thorough: bool) -> Result<super::xsize::Tour, String> {
+    if which != "sizes" || k != 0 {
+        return Err("no such tour".into());
+    }
+    let mut t = super::xsize::Tour::new("sizes:0");
+    let sizes: Vec<usize> = (0..=8).collect();
+    for s in super::xsize::size_pairs(&sizes) {
+        t.push(format!("Ecube::all({})", s), move || check_all(s));
+        let mask = if s >= 32 { !0u32 } else { (1u32 << s) - 1 };
+        let a: Vec<u32> = vec![(0b101 & mask) << 1, ((0b11010 & mask) << 1) | 1];
+        let b: Vec<u32> = vec![(mask << 1) | 1];
+        t.push(format!("Soes n={} to Lut and |", s), move || check_soes(s, &a, &b));
+        let tab = TT::from_fn(s, |m| crate::model::alpha::popcount(m) % 2 == 1);
+        t.push(format!("Ecube::implies_lut n={}", s), move || check_implies_lut(s, &tab, mask, false));
+    }
+    Ok(t)
 }
 
 pub fn run(run: &Run) {
@@ -341,6 +400,19 @@ pub fn run(run: &Run) {
                 rec(l, check_pair(*a, x, b, !x), format!("pair|{:08x}|{}|{:08x}", a, x as u8, b), "ecube/pair", format!("kind=pair;va={:x};xa={};vb={:x};xb={}", a, x as u8, b, !x as u8), true, k as u64);
                 l.states += 1;
                 rec(l, check_pair(*a, x, a.rotate_left(1), x), format!("pair|{:08x}|{}|rot", a, x as u8), "ecube/pair", format!("kind=pair;va={:x};xa={};vb={:x};xb={}", a, x as u8, a.rotate_left(1), x as u8), true, k as u64 + 1);
+            }
+        }
+    });
+    run.section_seq("WIDE pairs that differ in exactly one variable (every variable 0..=31) or only in the polarity", true, "7 base masks x 32 variables x both polarities: a vs a^x_v must be unequal, compare unequal and evaluate differently", |l| {
+        for base in [0u32, !0u32, 0x5555_5555, 0x8000_0001, 0x7fff_ffff, 0x0000_ffff, 0xdead_beef] {
+            for v in 0..32u32 {
+                for x in [false, true] {
+                    let b = base ^ (1u32 << v);
+                    l.states += 1;
+                    rec(l, check_pair(base, x, b, x), format!("pair|{:08x}|{}|{:08x}|onevar", base, x as u8, b), "ecube/pair", format!("kind=pair;va={:x};xa={};vb={:x};xb={}", base, x as u8, b, x as u8), true, (base ^ v) as u64);
+                    l.states += 1;
+                    rec(l, check_pair(b, x, base, !x), format!("pair|{:08x}|{}|{:08x}|onevar-pol", b, x as u8, base), "ecube/pair", format!("kind=pair;va={:x};xa={};vb={:x};xb={}", b, x as u8, base, !x as u8), true, (base ^ v) as u64 + 7);
+                }
             }
         }
     });
@@ -457,4 +529,20 @@ pub fn run(run: &Run) {
             }
         }
     });
+    run.section_seq("CLONE_FROM Soes: every ordered pair of sizes 0..=6 x term lists", false, "destination over m variables (3 term lists) overwritten from a source over n variables (4 term lists): size, terms, table and | afterwards", |l| {
+        for n in 0..=6usize {
+            for m in 0..=6usize {
+                let mask = (1u32 << n) - 1;
+                let srcs: Vec<Vec<u32>> = vec![vec![], vec![(mask << 1) | 1], vec![(1 & mask) << 1, ((mask >> 1) << 1) | 1], vec![(0b101 & mask) << 1, (0b110 & mask) << 1, 1]];
+                let dsts: Vec<Vec<u32>> = vec![vec![], vec![0b11], vec![0b10, 0b101, 0b1110]];
+                for a in &srcs {
+                    for b in &dsts {
+                        l.states += 1;
+                        rec(l, check_soes_clone_from(n, m, a, b), format!("clonefrom|{}|{}|{}|{}", n, m, join(a), join(b)), "soes/clone_from", format!("kind=clonefrom;n={};m={};a={};b={}", n, m, join(a), join(b)), n != m, (n * 100 + m) as u64);
+                    }
+                }
+            }
+        }
+    });
+    super::xsize::run_tours(run, "C13", "sizes (Ecube::all(n), a Soes conversion and implies_lut at every ordered pair of sizes 0..=8 consecutively)", "results must not depend on what was computed before on the thread", 1, &|k| tour("sizes", k, false).unwrap());
 }
